@@ -22,6 +22,9 @@ type Chan[T any] struct {
 	last    T
 	lastOK  bool
 	tok     byte
+	// rwait counts threads parked in a receive (plain or as a select arm) on this channel: a select SEND arm on an
+	// unbuffered channel is ready only when somebody is there to take the value
+	rwait int
 }
 
 // MakeChan replaces make(chan T, n).
@@ -159,7 +162,9 @@ func (c *Chan[T]) Recv2() (v T, ok bool) {
 		return v, false
 	}
 	if s != nil {
+		c.rwait++
 		s.point(&recvOp[T]{c})
+		c.rwait--
 	} else if !c.canRecv() {
 		panic("vsyncrt: channel receive would block outside a controlled execution")
 	}
@@ -228,6 +233,67 @@ func (c *Chan[T]) Taken() T { return c.last }
 //go:norace
 func (c *Chan[T]) Taken2() (T, bool) { return c.last, c.lastOK }
 
+type sendCase[T any] struct {
+	c *Chan[T]
+	v T
+}
+
+//go:norace
+func (r *sendCase[T]) ready() bool {
+	c := r.c
+	if c == nil {
+		return false
+	}
+	if c.closed {
+		return true // fires and panics, like the real thing
+	}
+	if c.cap > 0 {
+		return c.n < c.cap
+	}
+	return !c.offered && c.rwait > 0
+}
+
+//go:norace
+func (r *sendCase[T]) fire() {
+	c := r.c
+	if c.closed {
+		panic("send on closed channel")
+	}
+	raceReleaseMerge(unsafe.Pointer(&c.tok))
+	if c.cap > 0 {
+		raceAcquire(unsafe.Pointer(&c.tok))
+		c.ring[(c.head+c.n)%c.cap] = r.v
+		c.n++
+		return
+	}
+	// rendezvous with a receiver that is already waiting: hand the value over and wait until it has been taken
+	c.slot, c.offered, c.taken = r.v, true, false
+	if s := active; s != nil {
+		s.point(&sendAckOp[T]{c})
+	}
+	raceAcquire(unsafe.Pointer(&c.tok))
+	if c.taken {
+		c.offered, c.taken = false, false
+		return
+	}
+	panic("send on closed channel")
+}
+
+// SendCase is the select arm "case c <- v".
+//
+//go:norace
+func (c *Chan[T]) SendCase(v T) Case { return &sendCase[T]{c: c, v: v} }
+
+// waiter is implemented by arms that park a receiver on a channel while the select waits.
+type waiter interface{ park(delta int) }
+
+//go:norace
+func (r *recvCase[T]) park(delta int) {
+	if r.c != nil {
+		r.c.rwait += delta
+	}
+}
+
 type doneCase struct{ ch <-chan struct{} }
 
 //go:norace
@@ -280,7 +346,17 @@ func Select(hasDefault bool, cases ...Case) int {
 	}
 	o := &selectOp{cases: cases, def: hasDefault}
 	if s != nil {
+		for _, c := range cases {
+			if w, ok := c.(waiter); ok {
+				w.park(1)
+			}
+		}
 		s.point(o)
+		for _, c := range cases {
+			if w, ok := c.(waiter); ok {
+				w.park(-1)
+			}
+		}
 	}
 	var ready [16]int
 	n := 0
